@@ -184,6 +184,17 @@ def write_replay(pid, payload):
 
 
 ESCALATION_BUDGET_S = 300
+DEEPEN_BUDGET_S = 240
+
+
+def property_files(pid):
+    """the source files a property is anchored in (properties.jsonl)"""
+    with open(os.path.join(VERIF, "properties.jsonl")) as f:
+        for line in f:
+            d = json.loads(line)
+            if d["id"] == pid:
+                return list(d.get("anchors", {}).get("files", []))
+    return []
 
 
 class _Deadline(BaseException):
@@ -253,8 +264,30 @@ def check(pid, tier, seed):
             return {"name": fn.__name__, "evaluations": 0, "distinct": 0, "crash": f"{type(e).__name__}: {e}",
                     "trace": traceback.format_exc()[-1500:]}
 
+    # source fingerprints: when a file the property is anchored in differs (AST) from the tree the models were last validated
+    # against, the quick tier runs the correspondences with the thorough parameters (time-boxed) — never an alarm by itself
+    deepen = []
+    if tier == "quick":
+        try:
+            import fingerprint
+            ch = fingerprint.changed_files()
+            anchored = set(property_files(pid))
+            deepen = [f for f in (ch or []) if f in anchored or not anchored]
+        except Exception as e:  # noqa: BLE001
+            notes.append(f"fingerprints unavailable: {type(e).__name__}: {e}")
+    if deepen:
+        notes.append("anchored source files differ from the validated fingerprints (" + ", ".join(deepen[:6]) +
+                     "): correspondences run with the thorough parameters")
     for fn in mod.checks(tier):
         if fn.__name__.startswith("corr") and not model_ok:
+            continue
+        if deepen and fn.__name__.startswith("corr"):
+            r = run_with_deadline(run_fn, fn, "thorough", DEEPEN_BUDGET_S)
+            if r.get("note", "").startswith("escalated search stopped"):
+                r = run_fn(fn, tier)   # did not finish in time: fall back to the quick parameters
+            else:
+                r["name"] = r.get("name", fn.__name__) + " [deepened: source changed]"
+            results.append(r)
             continue
         results.append(run_fn(fn, tier))
 
@@ -345,6 +378,7 @@ def check(pid, tier, seed):
                        | {"disagreements": len(r.get("disagreements", [])), "violations": len(r.get("violations", []))} for r in results],
             "known_findings_seen": {fid: cnt for fid, (f, cnt) in known_hits.items()},
             "broken_ties": [k for k, _ in broken],
+            "notes": notes,
             "statement": spec.get("statement", ""),
             "partial": spec.get("partial", ""),
         },
